@@ -1,8 +1,8 @@
 import KyupyVerif.Model.CircObj
 /-! # Object-level model of `Circuit.substitute`, `remove_dangling_nodes`, `resolve_tlib_cells` (C09)
 
-Statement-by-statement transcription of circuit.py:341-353 (`remove_dangling_nodes`), 382-459 (`substitute`) and 461-468
-(`resolve_tlib_cells`) in terms of the primitives of Model/CircObj.lean (`addNode`, `addLine` with explicit pins,
+Statement-by-statement transcription of circuit.py:341-353 (`remove_dangling_nodes`), 382-463 (`substitute`, with the loop
+that makes the outputs of the copied forks dense again — the repair of D30) and 465-472 (`resolve_tlib_cells`) in terms of the primitives of Model/CircObj.lean (`addNode`, `addLine` with explicit pins,
 `removeLine`, `removeNode`, heap updates).  The implementation circuit is a second `Circ` value (read only), the library is
 an association list kind ↦ implementation.  Where Python raises (`KeyError`, `AttributeError`, `IndexError`, a failing
 `assert`, the `None.driver_pin` of the renumbering loop of `Line.remove`) the functions return `none`.
@@ -10,8 +10,10 @@ an association list kind ↦ implementation.  Where Python raises (`KeyError`, `
 Python sets and dictionaries keyed by `Node` objects (`ios`, `node_map`, `own_nodes`) compare by `Node.__eq__` =
 (name, kind); the model does the same (`sameNode`).  Identity tests (`n is root_node`) compare ids.
 
-`substPre` is the decidable well-formed-use precondition under which Props/C09 proves that the result satisfies `WFc`;
-`substStatic` is a purely structural sufficient condition for the regular case (see Proofs/CircObjSub*.lean). -/
+`substPre` is the decidable well-formed-use precondition under which Props/C09 proves that the result satisfies `WFc`
+(it evaluates pin guards along the run and needs no hypothesis on the implementation); `substStatic` is a purely
+structural sufficient condition (well-formed implementation, duplicate-free port list, designated cell not a port, no
+self loop at the instance) that implies it on well-formed hosts (Proofs/CircObjSubstStatic.lean, CircObjSubstFull.lean). -/
 namespace KV.CircObj
 
 def isSeqKind (k : String) : Bool := hasSub "dff" (lower k) || hasSub "latch" (lower k)
@@ -271,7 +273,7 @@ def substituteObj (c : Circ) (i : Nat) (m : Circ) : Option Circ :=
       | none => none
       | some (c5, dang) => foldO (danglingStep (nm.map (·.2))) (densify c5 nm) dang
 
-/-! ## `resolve_tlib_cells(tlib)` (circuit.py:461-468) -/
+/-! ## `resolve_tlib_cells(tlib)` (circuit.py:465-472) -/
 /-- `tlib.cells`: kind ↦ implementation circuit -/
 abbrev Lib := List (String × Circ)
 def Lib.find (lib : Lib) (kind : String) : Option Circ := (lib.find? fun e => e.1 == kind).map (·.2)
